@@ -1575,12 +1575,163 @@ func c01SymlinkedHtpasswd(run *vfRun, sh *c01Shared) {
 	}
 }
 
+// c01OverrideHeaders: reverse-proxy mode OFF. The bypass rules (CORS preflight, method-scoped skip-auth routes) apply to
+// the method and path of the request line; a client-supplied header that merely NAMES an exempt method or path
+// (X-Forwarded-Method, X-HTTP-Method-Override, X-Forwarded-Uri, X-Original-URI, ...) entitles nobody.
+func c01OverrideHeaders(run *vfRun, sh *c01Shared) {
+	methodHdrs := []string{"X-Forwarded-Method", "X-HTTP-Method-Override", "X-Http-Method", "X-Method-Override", "X-Original-Method"}
+	uriHdrs := []string{"X-Forwarded-Uri", "X-Original-URI", "X-Original-Url", "X-Rewrite-Url", "X-Forwarded-Path", "X-Forwarded-Prefix"}
+	type job struct {
+		cfg     c01Cfg
+		p       *vfProxy
+		byp     c01BypassRef
+		method  string
+		target  string
+		headers [][2]string
+		label   string
+	}
+	var jobs []job
+	for _, bypass := range []string{"preflight", "route", "all"} {
+		cfg := c01Cfg{Store: "cookie", JWT: "off", Htpasswd: "off", Rules: "none", ErrMode: "page", Bypass: bypass, Expire: "168h", Refresh: "0"}
+		if bypass == "route" {
+			cfg.ErrMode = "api"
+		}
+		p, err := sh.W.NewProxy(cfg.flags(sh)...)
+		if err != nil {
+			run.T.Fatalf("c01: override-header instance: %v", err)
+		}
+		byp := cfg.bypassRef()
+		for _, m := range []string{"GET", "POST", "PUT", "DELETE", "HEAD", "OPTIONS"} {
+			for _, target := range []string{"/x", "/b/y", "/pub/ok", "/api/hook", "/pub/okx", "/oauth2/auth", "/oauth2/userinfo"} {
+				var sets [][][2]string
+				for _, h := range methodHdrs {
+					for _, v := range []string{"OPTIONS", "options", "GET", "POST"} {
+						sets = append(sets, [][2]string{{h, v}})
+					}
+				}
+				for _, h := range uriHdrs {
+					for _, v := range []string{"/pub/ok", "/api/hook", "/pub/ok?x=1"} {
+						sets = append(sets, [][2]string{{h, v}})
+					}
+				}
+				sets = append(sets, [][2]string{{"X-Forwarded-Method", "GET"}, {"X-Forwarded-Uri", "/pub/ok"}}, [][2]string{{"X-Forwarded-Method", "POST"}, {"X-Forwarded-Uri", "/api/hook"}},
+					[][2]string{{"X-Forwarded-Method", "OPTIONS"}, {"Access-Control-Request-Method", "GET"}, {"Origin", "http://evil.example"}})
+				for si, hs := range sets {
+					if !run.Env.Thorough() && (si+len(jobs))%3 != 0 && hs[0][0] != "X-Forwarded-Method" && hs[0][0] != "X-Forwarded-Uri" {
+						continue
+					}
+					jobs = append(jobs, job{cfg, p, byp, m, target, hs, fmt.Sprint(hs)})
+				}
+			}
+		}
+	}
+	vfParallel(len(jobs), 16, func(i int) {
+		j := jobs[i]
+		id := fmt.Sprintf("c01ovr-%d", i)
+		req := vfNewReq(j.method, j.target, "X-Vf-Id", id).From(c01Untrusted)
+		for _, h := range j.headers {
+			req.H(h[0], h[1])
+		}
+		r := j.p.Do(req)
+		hits := append(sh.W.Up.FindHit(id), sh.UpB.FindHit(id)...)
+		class := c01EndpointClass(j.target)
+		bypass := j.byp.match(j.method, j.target, c01Untrusted) // the REAL method and path
+		served := len(hits) > 0 || (class == "auth" && r.Code == 202) || (class == "userinfo" && r.Code == 200)
+		run.Eval(fmt.Sprintf("override-header|%s|%s|%s|bypass=%s", j.cfg.Bypass, j.headers[0][0], class, bypass))
+		run.Count("override_header_requests", 1)
+		wit := map[string]interface{}{"config": j.cfg.String(), "flags": j.p.Flags, "request": req, "reference_bypass_from_real_method_and_path": bypass, "status": r.Code, "upstream_hits": hits}
+		switch {
+		case r.Panic != "":
+			c01Violation(run, "c01:panic", "request handling panicked: "+vfTrunc(r.Panic, 200), wit)
+		case bypass != "":
+			if served {
+				run.Count("served_by_bypass_"+bypass, 1)
+			} else {
+				run.Count("bypass_not_served", 1)
+			}
+		case served:
+			c01Violation(run, "c01:served-without-entitlement", fmt.Sprintf("reverse-proxy mode off, bypass=%s: %s %s without credential was served (status %d) because of client-supplied header(s) %s naming an exempt method/path",
+				j.cfg.Bypass, j.method, j.target, r.Code, j.label), wit)
+		case r.Code != 401 && r.Code != 403:
+			c01Violation(run, "c01:refusal-shape", fmt.Sprintf("refused with status %d (%s %s, headers %s)", r.Code, j.method, j.target, j.label), wit)
+		default:
+			run.Count("override_header_refused", 1)
+		}
+	})
+}
+
+// c01SupersededAfterSignOut (Redis store, --cookie-refresh): cookie C0 is issued 3 h ago, a request refreshes the
+// session (the browser now holds C1), the browser signs out. Neither C1 nor the superseded C0 is a credential any more.
+func c01SupersededAfterSignOut(run *vfRun, sh *c01Shared) {
+	p, err := sh.W.NewProxy("--session-store-type=redis", "--redis-connection-url="+sh.W.RedisURL(), "--cookie-refresh=1h", "--upstream="+sh.W.Up.URL()+"/", "--upstream="+sh.UpB.URL()+"/b/")
+	if err != nil {
+		run.T.Fatalf("c01: superseded-cookie instance: %v", err)
+	}
+	for k := 0; k < run.Env.Pick(3, 8); k++ {
+		b := vfNewBrowser("")
+		id := c01Alice
+		id.Sub = fmt.Sprintf("u-superseded-%d", k)
+		l, err := b.StartLogin(p, id, "/")
+		if err != nil {
+			run.T.Fatalf("c01: %v", err)
+		}
+		clock.Set(time.Now().Add(-3 * time.Hour))
+		cb := b.Get(p, l.CallbackTarget(p))
+		clock.Reset()
+		c0 := c01SessionCookies(b)
+		if cb.Code != 302 || len(c0) != 1 {
+			run.T.Fatalf("c01: superseded-cookie login: status %d, %d cookies", cb.Code, len(c0))
+		}
+		a0, _ := sh.W.IdP.RefreshGrants()
+		rid := fmt.Sprintf("c01sup-%d-refresh", k)
+		r := b.Get(p, "/x", "X-Vf-Id", rid)
+		a1, ok1 := sh.W.IdP.RefreshGrants()
+		_ = ok1
+		run.Eval("superseded|refreshing-request")
+		if len(sh.W.Up.FindHit(rid)) == 0 {
+			c01Violation(run, "c01:valid-credential-not-served", fmt.Sprintf("session issued 3 h ago with a working refresh token refused (status %d) at --cookie-refresh=1h", r.Code), map[string]interface{}{"flags": p.Flags, "status": r.Code})
+			continue
+		}
+		if a1 == a0 {
+			run.Inconclusive("the stale session was not refreshed (no refresh grant reached the IdP)")
+			continue
+		}
+		c1 := c01SessionCookies(b)
+		so := b.Get(p, "/oauth2/sign_out")
+		run.Count("superseded_histories", 1)
+		creds := map[string][][2]string{"cookie issued BEFORE the refresh (superseded)": c0, "cookie held at sign-out": c1}
+		for label, cs := range creds {
+			for t, target := range []string{"/x", "/oauth2/auth", "/oauth2/userinfo"} {
+				if len(cs) == 0 {
+					continue
+				}
+				qid := fmt.Sprintf("c01sup-%d-%d-%d", k, len(label), t)
+				req := vfGET(target, "X-Vf-Id", qid)
+				for _, c := range cs {
+					req.Cookie(c[0], c[1])
+				}
+				q := p.Do(req)
+				hits := append(sh.W.Up.FindHit(qid), sh.UpB.FindHit(qid)...)
+				served := len(hits) > 0 || q.Code == 202 || (strings.HasPrefix(target, "/oauth2/userinfo") && q.Code == 200 && strings.TrimSpace(string(q.Body)) != "{}")
+				run.Eval("superseded|after-sign-out|" + c01EndpointClass(target))
+				if served {
+					c01Violation(run, "c01:signed-out-cookie-still-valid", fmt.Sprintf("Redis store: after sign-out (status %d) the %s still opens GET %s (status %d)", so.Code, label, target, q.Code),
+						map[string]interface{}{"flags": p.Flags, "history": "login 3 h ago (imposed), one request refreshes the session (cookie re-issued), sign-out with the browser's cookies, then the named cookie is presented again",
+							"credential": label, "request": req, "status": q.Code, "sign_out_status": so.Code, "upstream_hits": hits})
+				} else {
+					run.Count("signed_out_cookie_refused", 1)
+				}
+			}
+		}
+	}
+}
+
 func TestVerif_C01(t *testing.T) {
 	run := vfNewRun(t, "C01", "exploration")
 	run.SetRule("per instance: every credential state (none; real sessions of 5 identities; tampered/stripped/re-dated/random/garbage cookies; expired; other secret; other store; deleted ticket; CSRF value; wrong name; " +
 		"bearer valid/extra issuer/wrong key/expired/wrong aud/wrong iss/alg none/HS256/bad sig/unverified; JWT in Basic; htpasswd valid/invalid/malformed; form login; two credentials at once) " +
 		"x 9 endpoints x GET/POST/OPTIONS/HEAD x Accept x client address (untrusted, trusted, near-miss); instances = pairwise covering array over (store, jwt, htpasswd, rules, error mode, bypass, lifetime) plus seeded full tuples plus static-upstream instances. " +
-		"histories: htpasswd password rotation (bcrypt/SHA entries, atomic rename, every earlier password must be dead once the reload is observed); a Redis session removed by another connection between the first load and the re-load under the refresh lock; reverse-proxy mode: trusted addresses in every forwarding header other than the configured one; htpasswd file behind a swapped symlink. " +
+		"histories: htpasswd password rotation (bcrypt/SHA entries, atomic rename, every earlier password must be dead once the reload is observed); a Redis session removed by another connection between the first load and the re-load under the refresh lock; reverse-proxy mode: trusted addresses in every forwarding header other than the configured one; htpasswd file behind a swapped symlink; reverse-proxy off: client-supplied method/URI override headers naming an exempt method or path; Redis cookie superseded by a refresh, after sign-out. " +
 		"cell = (credential kind, endpoint class, bypass state, store); non-trivial = credential != none or a bypass rule matched")
 	run.Assume("validity of a credential is the harness's bookkeeping of how it was made; margins around lifetimes are hours",
 		"being served because of a bypass alone is counted, not demanded (C15)", "inotify limit: at most 50 htpasswd instances per process")
@@ -1605,6 +1756,8 @@ func TestVerif_C01(t *testing.T) {
 	c01RemovedMidRequest(run, sh)
 	c01ForwardedSpoof(run, sh)
 	c01SymlinkedHtpasswd(run, sh)
+	c01OverrideHeaders(run, sh)
+	c01SupersededAfterSignOut(run, sh)
 	run.Count("ms_histories", time.Since(t0).Milliseconds())
 	w.Up.Reset()
 	sh.UpB.Reset()
@@ -1625,7 +1778,7 @@ func TestVerif_C01(t *testing.T) {
 	sh.statMu.Unlock()
 	run.Extra("per_credential_kind", stat)
 	// a run that saw (almost) nothing served or nothing refused proves nothing
-	for _, c := range []string{"served_valid_credential", "refused", "served_by_bypass_route", "served_by_bypass_ip", "served_by_bypass_preflight", "refused_by_redirect_to_idp", "wire_requests", "rotation_old_password_refused", "rotation_current_password_served", "forwarded_header_spoof_refused", "served_by_bypass_configured_client_ip_header"} {
+	for _, c := range []string{"served_valid_credential", "refused", "served_by_bypass_route", "served_by_bypass_ip", "served_by_bypass_preflight", "refused_by_redirect_to_idp", "wire_requests", "rotation_old_password_refused", "rotation_current_password_served", "forwarded_header_spoof_refused", "served_by_bypass_configured_client_ip_header", "override_header_refused"} {
 		if run.Counter(c) < 20 && run.Violations() == 0 {
 			fmt.Printf("INCONCLUSIVE property=C01 reason=counter %s=%d: the workload did not exercise this outcome\n", c, run.Counter(c))
 			t.Fail()
